@@ -187,6 +187,12 @@ def run(chk, facts, info):
              'label values) is kept in one address space: logical (EProgCounter()) and physical (ProgCounter()) '
              'addresses are never compared or subtracted across', min_instances=2)
     logical_physical_rule(chk, P, 'C01-R6')
+    chk.rule('C01-R7', 'in the core modules a value that is implicitly narrowed into a Boolean variable (8 bits) is already '
+             'a truth value: the decision "symbol changed since the last pass" and every other flag cannot lose a '
+             'difference that is a multiple of 256', min_instances=60)
+    n7 = boolean_store_rule(chk, P, 'C01-R7', lambda u: not is_generator_unit(u))
+    if n7 < 60:
+        raise AnalysisBroken('only %d narrowing stores into Boolean variables found' % n7)
     chk.note('Decided: repass flag discipline, placeholder => repass, single writer of carried symbol values, per-pass '
              'reset completeness of core and registered target state. Not decided: termination of the pass loop and that '
              'encoded operands equal final symbol values.')
